@@ -124,10 +124,20 @@ def h_sync(env):
     def done(nt):
         return all(c.current_cycle >= rounds for c in nt.comps.values() if c.neighbors)
     try:
+        if p.get("paused_start"):
+            # the hosting agent paused the computations before starting them: what they post while paused is held and goes
+            # out, in order, at the resume (C19) - through the mixin's own post_msg
+            for n in order:
+                net.comps[n].pause(True)
         for n in order:
             net.start(n)
+            if p.get("paused_start") == "resume-each":
+                net.comps[n].pause(False)
             if p.get("interleave_start"):
                 net.run("fifo" if policy == "explore" else policy, max_steps=p.get("between", 1), rng=rng)
+        if p.get("paused_start") and p.get("paused_start") != "resume-each":
+            for n in order:
+                net.comps[n].pause(False)
         net.run(policy, max_steps=400, rng=rng, until=done)
     except HandlerRaised as e:
         env.prove("sync.no-invalid-cycle-or-two-messages-error", False, detail=lambda: "%s\n%s" % (e, e.tb))
@@ -159,6 +169,12 @@ def _shapes(tier, prop=None):
          dict(graph="star4", rounds=2, subsets="none", policy="lifo"),
          dict(graph="isolated", rounds=2, subsets="all", policy="rr")]
     q += [dict(graph="triangle", rounds=3, subsets="random", policy="random", sched_seed=i, interleave_start=bool(i % 2), between=i % 3) for i in range(3, 9)]
+    q += [dict(graph="chain3", rounds=2, subsets="all", policy="fifo", paused_start=True),
+          dict(graph="triangle", rounds=2, subsets="random", policy="random", sched_seed=4, paused_start="resume-each", style="post"),
+          dict(graph="star4", rounds=2, subsets="random", policy="rr", sched_seed=5, paused_start=True, style="mixed")]
+    if prop == "C19":
+        # for C19 only the shapes in which computations are paused before they start (posts held until the resume)
+        return [d for d in q if d.get("paused_start")]
     q += [dict(graph="pair", rounds=3, policy="explore", style="mixed"), dict(graph="chain3", rounds=3, subsets="all", policy="fifo", style="post"),
           dict(graph="chain3", rounds=2, policy="fifo", style="mixed"), dict(graph="chain3", rounds=2, policy="lifo", style="post+empty"),
           dict(graph="star4", rounds=3, subsets="random", policy="random", sched_seed=3, style="mixed", interleave_start=True)]
@@ -179,7 +195,7 @@ def _shapes(tier, prop=None):
 
 
 Contract(
-    "sync.mixin", ["C08"],
+    "sync.mixin", ["C08", "C19"],
     ["pydcop.infrastructure.computations:SynchronousComputationMixin._sync_message_handler",
      "pydcop.infrastructure.computations:SynchronousComputationMixin._switch_cycle",
      "pydcop.infrastructure.computations:SynchronousComputationMixin.start",
